@@ -70,9 +70,9 @@ var pipesimAssume = []string{
 var rawMode bool
 
 var props = map[string]propCfg{
-	"C05": {Engine: "pipesim", Level: "exploration", QuickRandom: 150000, QuickWall: 20, ThoroughRand: 4000000, ThoroughWall: 420,
+	"C05": {Engine: "pipesim", Level: "exploration", QuickRandom: 150000, QuickWall: 20, ThoroughRand: 40000000, ThoroughWall: 540,
 		Rule: "one case = one simulated run (plan + schedule tape). Enumerated: every sequential stage x capacity {0,1,2,5} x input length 0..3 (thorough 0..5) x function variants x 6 base schedules; then seeded random plans (stage, length, capacity, Take n, function, paces, policy, preemption). " + distinctRule},
-	"C06": {Engine: "pipesim", Level: "fault_enumeration", QuickRandom: 150000, QuickWall: 20, ThoroughRand: 4000000, ThoroughWall: 480,
+	"C06": {Engine: "pipesim", Level: "fault_enumeration", QuickRandom: 150000, QuickWall: 20, ThoroughRand: 40000000, ThoroughWall: 540,
 		Rule: "one case = one simulated run (plan + fault plan + schedule tape). Enumerated (complete for that sub-space): 14 stages x capacity {0,1,2} x input length 0..3 x 4 base schedules (thorough: length 0..4, 6 schedules), each base run re-run with the cancel injected before every step k=0..L and with each consumer walking away after every k=0..len+1 elements; then seeded random plans with cancel (step, virtual-time, at quiescence), abandonment, never-closing inputs, stalls, failing functions. " + distinctRule},
 }
 
@@ -83,23 +83,23 @@ var seqsimAssume = []string{
 }
 
 func init() {
-	props["C16"] = propCfg{Engine: "seqsim", Level: "fault_enumeration", QuickRandom: 100000, QuickWall: 20, ThoroughRand: 2000000, ThoroughWall: 420, Assumptions: seqsimAssume,
+	props["C16"] = propCfg{Engine: "seqsim", Level: "fault_enumeration", QuickRandom: 100000, QuickWall: 20, ThoroughRand: 3000000, ThoroughWall: 540, Assumptions: seqsimAssume,
 		Rule: "one case = one visit (Morphism.Apply) of one program. Programs: every well-typed program of Join/LiftF/WrapF/Unit/Yield up to length 5 (thorough 6) after From over the type universe int, []int, [][]int, [][][]int, Void (exhaustive), plus seeded random programs up to length 9 (thorough 14), nesting depth <= 6. For each program: the fault-free visit, then one visit per callback position k with the visitor failing exactly there (exhaustive over k). evaluations = visits; distinct = distinct programs; non-trivial = program opens at least one nested context."}
-	props["C18"] = propCfg{Engine: "seqsim", Level: "exploration", QuickRandom: 60000, QuickWall: 20, ThoroughRand: 400000, ThoroughWall: 420, Assumptions: seqsimAssume,
+	props["C18"] = propCfg{Engine: "seqsim", Level: "exploration", QuickRandom: 60000, QuickWall: 20, ThoroughRand: 600000, ThoroughWall: 540, Assumptions: seqsimAssume,
 		Rule: "one case = one operation history executed against the real skip list and a Go map, inside a bubble whose simulated clock (the seed of the height generator) was advanced to a chosen offset before skiplist.New. Enumerated: every history of Put/Get/Remove over keys {1,2,3} x values {1,2} up to length 4 (thorough 5) x 6 clock offsets (thorough 10); then seeded random histories (quick <= 40 operations, thorough <= 2000; universes of 2..64 keys; int, reversed int and string keys; churn / descending / overwrite biases; random clock offsets). After every operation the printed form is parsed and checked. Distinct = distinct (history, clock offset); non-trivial = removes a present key or overwrites one."}
-	props["C11"] = propCfg{Engine: "pipesim", Level: "exploration", QuickRandom: 150000, QuickWall: 20, ThoroughRand: 3000000, ThoroughWall: 420,
+	props["C11"] = propCfg{Engine: "pipesim", Level: "exploration", QuickRandom: 150000, QuickWall: 20, ThoroughRand: 40000000, ThoroughWall: 540,
 		Rule: "one case = one simulated run of Emit or Unfold on the virtual clock. Enumerated: {Emit,Unfold} x capacity {0,1,2,5} x consumer takes 0..4 values (thorough 0..7) x 6 base schedules x 3 consumer paces (always ready, fixed slower pace, burst after a long stall), cancel swept over every step; then seeded random plans: function family, frequency {1ms,10ms,1s}, Try-mode failing index sets, consumer paces, cancel by step / virtual time / after the consumer left. Oracles: k-th value exact (online), calls at least one frequency apart, k-th value not before k ticks, always-ready consumer receives exactly one value per tick, close and exit after cancel. " + distinctRule}
-	props["C12"] = propCfg{Engine: "pipesim", Level: "exploration", QuickRandom: 150000, QuickWall: 20, ThoroughRand: 3000000, ThoroughWall: 420,
+	props["C12"] = propCfg{Engine: "pipesim", Level: "exploration", QuickRandom: 150000, QuickWall: 20, ThoroughRand: 40000000, ThoroughWall: 540,
 		Rule: "one case = one simulated run of Join with 0..5 inputs, one producer task per input. Enumerated: 11 input shapes (thorough 15) x capacity {0,1,3} x 6 base schedules x {plain, one input closing long after the others, slow consumer}; then seeded random plans (lengths <= 6, thorough <= 30; independent paces; one deliberately slow input; an input that never closes). Oracles: per-input order online, completeness, close observed strictly after every producer's close and after every element, close does happen, no close when an input stays open. " + distinctRule}
-	props["C13"] = propCfg{Engine: "pipesim", Level: "exploration", QuickRandom: 150000, QuickWall: 20, ThoroughRand: 3000000, ThoroughWall: 420,
+	props["C13"] = propCfg{Engine: "pipesim", Level: "exploration", QuickRandom: 150000, QuickWall: 20, ThoroughRand: 40000000, ThoroughWall: 540,
 		Rule: "one case = one simulated run of Throttling on the virtual clock. Enumerated: ops {1,2} (thorough 1..3) x c {0,1,3} x 4 lengths x 6 base schedules x {saturated, consumer late by 2.5 intervals, input late by 2.5 intervals, slow consumer}; then seeded random plans: ops {1,2,3,5}, interval {10ms,100ms,1s}, idle-then-burst on either side, idle in the middle, random paces, cancel. Oracles: order/content online, window bound 2*ops+1+c over every window of deliveries before cancel, interval membership under the saturated schedule, closure. " + distinctRule}
-	props["C09"] = propCfg{Engine: "pipesim", Level: "exploration", QuickRandom: 150000, QuickWall: 20, ThoroughRand: 3000000, ThoroughWall: 480,
+	props["C09"] = propCfg{Engine: "pipesim", Level: "exploration", QuickRandom: 150000, QuickWall: 20, ThoroughRand: 40000000, ThoroughWall: 540,
 		Rule: "one case = one simulated run of a fork stage (Map, FMap, Filter, Partition, ForEach, Void) with par workers. Enumerated: stage x par {1,2,3} x length 0..4 x 6 base schedules x {pure, Try with failing positions}, cancel swept over every step for par<=2, n<=3 (thorough: par<=4, length<=6); then seeded random plans: par in {1,2,3,4,8}, length <= 3*par (thorough <= 60), stalls and extra scheduling points inside the user function (completion orders), statement-level preemption, cancel, abandonment, never-closing input. " + distinctRule}
-	props["C10"] = propCfg{Engine: "pipesim", Level: "exploration", QuickRandom: 150000, QuickWall: 20, ThoroughRand: 3000000, ThoroughWall: 420,
+	props["C10"] = propCfg{Engine: "pipesim", Level: "exploration", QuickRandom: 150000, QuickWall: 20, ThoroughRand: 40000000, ThoroughWall: 540,
 		Rule: "one case = one simulated run of fork.Fold and, on the same input in the same run, pipe.Fold. Enumerated: 8 commutative monoids (sum/0, plain product/1, modular product/1, max/MinInt, min/MaxInt, and/all-ones, or/0, gcd/0) x par {1,2,3,4} x length 0..4 (thorough 0..7) x 6 base schedules; then seeded random plans: par in {1,2,3,4,8}, length <= 20 (also shorter than par and empty), stalls and scheduling points inside Combine (distributions of elements over workers), preemption. Inputs are distinct powers of 8 for sum and distinct primes for the plain product, so that the result encodes how often each element was combined. " + distinctRule}
-	props["C08"] = propCfg{Engine: "pipesim", Level: "exploration", QuickRandom: 150000, QuickWall: 20, ThoroughRand: 3000000, ThoroughWall: 480,
+	props["C08"] = propCfg{Engine: "pipesim", Level: "exploration", QuickRandom: 150000, QuickWall: 20, ThoroughRand: 40000000, ThoroughWall: 540,
 		Rule: "one case = one simulated run of pipe.New with 1-3 sender tasks and 1-2 receiver tasks. Enumerated: capacity {0,1,2,5} x 0..4 values (thorough 0..6) x 6 base schedules x 6 shapes (cancel at quiescence, sender close, receiver never receives, cancel swept over every step with an eager and with a late receiver, bursts that drain the queue to empty and refill it); then seeded random plans (capacity up to 16, several senders/receivers, paces, cancel by step/virtual time, sender close, abandonment, pool eviction). Oracles: online FIFO/no-duplicate/nothing-invented, porcupine linearizability of the Send/Recv history against a sequential FIFO queue (histories <= 24 operations, 0.5 s budget each; a timed-out check is counted as inconclusive in probes, never reported), completeness after cancel and after sender close, senders never blocked. " + distinctRule}
-	props["C07"] = propCfg{Engine: "pipesim", Level: "fault_enumeration", QuickRandom: 150000, QuickWall: 20, ThoroughRand: 3000000, ThoroughWall: 420,
+	props["C07"] = propCfg{Engine: "pipesim", Level: "fault_enumeration", QuickRandom: 150000, QuickWall: 20, ThoroughRand: 40000000, ThoroughWall: 540,
 		Rule: "one case = one simulated run. Fault = the user function returning an error. Enumerated (complete for that sub-space): {Map,FMap}x{Lift,Try}, Emit x {Lift,Try}, Unfold x Lift, every subset of failing positions for n = 0..4 (thorough 0..6), capacity {0,1,2}, 4 base schedules, 3 consumer orders (concurrent, values first, errors first); then seeded random plans (n <= 6, thorough <= 40; first/last/all/sparse/dense failure patterns; StdErr as the error reader; paces; all policies). " + distinctRule}
 }
 
@@ -641,6 +641,7 @@ func report(st *staged, prop string, cfg propCfg, tier string, seed uint64, outs
 		"decisions_with_choice":       multiTask,
 		"fair_default_decisions":      fairDef,
 		"distinct_schedules":          len(sched),
+		"distinct_counts_note":        "exact up to 250000 per worker process; beyond that the distinct counts are lower bounds (probe distinct_schedule_count_capped)",
 		"distinct_abstract_states":    len(states),
 		"policies":                    policies,
 		"probes":                      probes,
